@@ -85,6 +85,10 @@ def check(run):
     rf, rn = cc.reuse_findings(recs)
     findings += rf
     evaluations += rn
+    # struct representations declared in source that are NOT accepted (unexported field) and decode-only struct probes (key naming no field)
+    sf, sn = cc.structprobe_findings(recs)
+    findings += sf
+    evaluations += sn
     # ---- correspondence: the model decoder on the implementation's bytes = the implementation's decoded value; model round trip on the same value
     usable = [r for r in cases if cc.usable(r) and r["enc_class"] in ("ok", "null")]
     ccases = []
@@ -117,6 +121,7 @@ def check(run):
                                           "distinct_top_level_representations": len(reps)}
     run.coverage["samples"] = [cc.slim(r, ("id", "ver", "type_cql", "rep", "val_coq", "enc_hex", "dec_coq")) for r in usable[:5]]
     run.coverage["exhaustive"] = False
+    run.coverage["characterised_observations"] = cc.probe_observations(recs, ("map", "list", "timestamp", "varchar", "varint"))
     run.coverage["representation_layer_cases"] = {"encode_decode": len(repc), "destination_reuse": len(reuse)}
     run.coverage["not_modelled"] = ["convertTo*/convertFrom* type switches of the scalar codecs (C13)", "struct used as a CQL map (map.go case reflect.Struct)", "slice capacity",
                                     "decode theorem C11_representations_decode_fitting does not cover map destinations and UDT into struct-by-name / map[string]V (these are covered by the correspondence run)"]
